@@ -128,7 +128,6 @@ fn main() {
     p!("TYPE_ID_OFFSET", *counters::TYPE_ID_OFFSET);
     // client heartbeat counter / error codes (C11, C12)
     p!("CLIENT_HEARTBEAT_TYPE_ID", aeron_rs::heartbeat_timestamp::CLIENT_HEARTBEAT_TYPE_ID);
-    p!("ERROR_CODE_CHANNEL_ENDPOINT_ERROR", error_response_flyweight::ERROR_CODE_CHANNEL_ENDPOINT_ERROR);
     p!("MAX_MOMENT", aeron_rs::utils::types::MAX_MOMENT);
     // command / event struct sizes
     p!("CLIENT_TIMEOUT_LENGTH", client_timeout_flyweight::CLIENT_TIMEOUT_LENGTH);
